@@ -59,6 +59,10 @@ let new_sink text = { text; b = Buffer.create 64; h = 0 }
                         -> model history [LGet j; OP v ..]; prints ~ when get(j) throws
      @OP,j (tree)     = OP with the key argument a reference to the key of the node find(j) returns
                         -> model history [SFind j; OP x]; prints ~ when the tree is empty
+     MV (cache)       = move the cache into a temporary and back: no model operation, prints u
+     H,k / EH (tree)  = H: find(k), remember k when the found node has key k; EH: erase-by-node-pointer of the remembered
+                        node = [SErase k]; the remembered node is forgotten after a successful erase of k or a clear
+                        (it may have been freed); EH without a remembered node prints ~
    The argument value is taken at call time, so the model operation is the plain one.
    so the run is done token by token on the extracted lrun / srun (both take the start state). *)
 let lru_show sk i r =
@@ -98,6 +102,7 @@ let run_lru ismap toks sk =
         | _ -> failwith ("bad alias token " ^ tok)
       end else
       match split ',' tok with
+      | ["MV"] -> (Some RUnit, Some RUnit)
       | ["PG"; k; j] ->
         let (s1, g) = lstep1 !s (LGet (n j)) and (l1, g') = rstep1 !l (LGet (n j)) in
         s := s1; l := l1;
@@ -123,7 +128,17 @@ let sstep1 dup s o = match srun dup s [o] with (s1, [out]) -> (s1, out) | _ -> f
 let rrun1 dup l o = match rrun dup l [o] with (l1, [out]) -> (l1, out) | _ -> failwith "rrun"
 
 let run_splay dup toks sk =
-  let s = ref st_init and l = ref [] and differs = ref false in
+  let s = ref st_init and l = ref [] and differs = ref false and held = ref None in
+  let forget k = if !held = Some k then held := None in
+  let plain o =
+    let (s1, out) = sstep1 dup !s o and (l1, rout) = rrun1 dup !l o in
+    s := s1; l := l1;
+    if abs_out [o] [out] <> [rout] then differs := true;
+    (match o, out with
+     | SErase k, ((SBool true, _), _) -> forget k
+     | SClear, _ -> held := None
+     | _ -> ());
+    out in
   let rec do_tok tok =
       if tok.[0] = '@' then begin
         match split ',' (String.sub tok 1 (String.length tok - 1)) with
@@ -142,18 +157,18 @@ let run_splay dup toks sk =
         s := s1; l := l1;
         (match f with
          | SFound (Some x) when x = n k ->
-           let (s2, out) = sstep1 dup !s (SErase (n k)) and (l2, rout) = rrun1 dup !l (SErase (n k)) in
-           s := s2; l := l2;
-           if abs_out [SErase (n k)] [out] <> [rout] then differs := true;
-           out
+           plain (SErase (n k))
          | _ -> if List.mem (n k) !l then differs := true; ((SBool false, z1), ks1))
-      | _ ->
-        let o = splay_op tok in
-        let (s1, out) = sstep1 dup !s o and (l1, rout) = rrun1 dup !l o in
-        s := s1; l := l1;
-        if abs_out [o] [out] <> [rout] then differs := true;
-        out in
-      ((Some r, z), ks) in
+      | ["H"; k] ->
+        let out = plain (SFind (n k)) in
+        (match out with ((SFound (Some x), _), _) when x = n k -> held := Some x | _ -> ());
+        out
+      | ["EH"] ->
+        (match !held with
+         | Some k -> let out = plain (SErase k) in held := None; out
+         | None -> ((SUnit, !s.sz), keys !s.root))
+      | _ -> plain (splay_op tok) in
+      (((if tok = "EH" && r = SUnit then None else Some r), z), ks) in
   List.iteri (fun i tok ->
     if i > 0 then sep sk ' ';
     let ((r, z), ks) = do_tok tok in
